@@ -58,6 +58,7 @@ type Exec struct {
 	curFrame      *Frame
 	noSafety      bool
 	fpUF          bool
+	exitFallback  *State // merged exit state: source of locals not yet declared at an early return
 	specBits      bool // contract equality on floats is identity of the value (NaN equals NaN)
 	epochInfo     map[int]epochInfo
 	ifacePayload  map[string]ifaceRec
